@@ -30,6 +30,13 @@ Theorem rows_wf : forall (h : list op),
 Proof. exact rows_wf_lemma. Qed.
 Print Assumptions rows_wf.
 
+(* The model's words are unbounded N; every word of every row stays below 2^64 for every history (well-formed
+   or not), so the unbounded reading never leaves the int64 machine word of reachable.cc. *)
+Theorem words_bounded : forall (h : list op),
+  Forall (Forall (fun w => (w < 2 ^ 64)%N)) (rows (reach (run h))).
+Proof. exact words_bounded_lemma. Qed.
+Print Assumptions words_bounded.
+
 (* Non-vacuity: a 130-node chain (three buckets) closed into a cycle by a late back edge, with a
    self edge and a duplicate edge; the hypotheses hold and the answers are the expected ones. *)
 Definition chain130 : list op :=
